@@ -58,6 +58,14 @@ class AllreduceTensorBucket:
         """Check if communication for the bucket has been initiated."""
         return self._communicated
 
+    def accepts(self, tensor: torch.Tensor) -> bool:
+        """Check if tensor can be fused with the tensors in the bucket.
+
+        Flattening tensors of different dtypes into one buffer promotes them
+        to a common dtype so a bucket only holds tensors of a single dtype.
+        """
+        return len(self._tensors) == 0 or self._tensors[0].dtype == tensor.dtype
+
     def add_tensor(self, tensor: torch.Tensor) -> FutureType:
         """Add tensor to bucket.
 
@@ -354,7 +362,10 @@ class TorchDistributedCommunicator:
         bucket = self._get_allreduce_bucket(group)
         if bucket is None:
             bucket = self._new_allreduce_bucket(group)
-        if bucket.size + tensor_size > self.bucket_cap_bytes:
+        if (
+            bucket.size + tensor_size > self.bucket_cap_bytes
+            or not bucket.accepts(tensor)
+        ):
             bucket.allreduce()
             bucket = self._new_allreduce_bucket(group)
         future = bucket.add_tensor(tensor)
